@@ -26,6 +26,14 @@ def cause(rec):
         elif ev[0] == "T":
             out.append(f"T@{_role(ev[1]).split(':')[-2] if ':' in ev[1] else ev[1]}"
                        f".{_role(ev[1]).split(':')[-1]}/{_lk(ev[2])}")
+        elif ev[0] == "killed-by" and len(ev) > 3:
+            # a worker killed by the library itself (kill_workers, terminate_broken) while it
+            # holds the processes-management lock (between acquire(False) and release on its
+            # idle-timeout path): part of the cause, like an external kill at that place
+            for (tname, tlabel, stack) in ev[3]:
+                if tname == "main" and stack and stack[0] == "_process_worker" \
+                        and _lk(tlabel) == "sem.rel":
+                    out.append("IK@_process_worker/sem.rel")
         elif ev[0] == "die":
             out.append("die")
     npre = sum(1 for (_, _, lab) in rec.devs if lab.startswith("run:"))
